@@ -639,6 +639,45 @@ pub fn generate(ctx: &mut Ctx) {
          hashers) and every distinct output is recorded as its own case"
             .into(),
     );
+    // (1b) thorough only: every symmetric graph on 4 vertices with edge weights in {absent,1,2},
+    //      every two-way partition, two weight vectors, two parameter settings
+    if !ctx.quick() {
+        let pairs = [(1usize, 0usize), (2, 0), (2, 1), (3, 0), (3, 1), (3, 2)];
+        for code in 0..729usize {
+            let mut edges: Edges = vec![];
+            let mut k = code;
+            for (u, v) in pairs {
+                if k % 3 > 0 {
+                    edges.push((u, v, (k % 3) as i64));
+                }
+                k /= 3;
+            }
+            let rows = rows_of(4, &edges);
+            for mask in 0..16usize {
+                for ws in [[1i64, 1, 1, 1], [1, 2, 3, 4]] {
+                    for (mi, mb) in [(None, 2usize), (Some(0.5), 1)] {
+                        let c = Case {
+                            f64w: false,
+                            mi,
+                            mb,
+                            mp: None,
+                            mm: None,
+                            rows: rows.clone(),
+                            ids: (0..4).map(|i| mask >> i & 1).collect(),
+                            ws: ws.to_vec(),
+                        };
+                        ctx.count("stream:exhaustive4");
+                        run_op(ctx, &format_op(&c));
+                    }
+                }
+            }
+        }
+        ctx.notes.push(
+            "thorough: also all symmetric graphs on 4 vertices with edge weights in {absent,1,2} x all 16 two-way \
+             partitions x weights {[1,1,1,1],[1,2,3,4]} x 2 parameter settings"
+                .into(),
+        );
+    }
     // (2) tie-free stream (wide vertex weights): exact comparison with the model
     for _ in 0..ctx.budget(700, 14000) {
         let max_n = if ctx.quick() { 16 } else { 28 };
